@@ -168,6 +168,18 @@ def runOpGrammar (op : String) (args : List String) : String :=
         firstFail [okIf (nodeMassOK ts g) "per-label-count-not-node-count",
           okIf (massBalanced g l (ts.map (·.fields.label))) "symbol-mass-not-balanced"]
     | _, _, _ => bad
+  | "P.C08.lexrules", [gl, l] =>
+    -- lexical rules embedded in a written PMCFG grammar: TAG -> word carries exactly the count of that (word, tag) pair
+    match decLines gl, decLexicon l with
+    | some gl, some l =>
+      match decPmcfg gl with
+      | none => "FAIL pmcfg-does-not-decode"
+      | some rules =>
+        let bad := l.flatMap fun (w, tags) => tags.filterMap fun (t, c) =>
+          let got := ((rules.filter fun (f, _, _) => f == [t, w]).map fun (_, _, n) => n).sum
+          if got == c then none else some (t, w, c, got)
+        if bad.isEmpty then "ok" else "FAIL lexical-rule-count"
+    | _, _ => bad
   | "P.C09.pmcfg", [lig, g, l, gl, ll] =>
     match decGrammar g, decLexicon l, decLines gl with
     | some g, some l, some gl =>
